@@ -53,6 +53,8 @@ def gen_s1(rng, tb=False):
     keys = [((rng.choice(his) << 48) | rng.choice(los)) for _ in range(rng.randint(3, 9))]
     if rng.random() < 0.3:
         keys.append(0)
+    if rng.random() < 0.5:   # first and last bucket of the table, whatever its size
+        keys += [(1 << 64) - 1, (0xFFFF << 48) | rng.getrandbits(48) | 0xFFFFFFFC, rng.getrandbits(2), (rng.getrandbits(40) << 2) & ~0xFFFFFFFC]
     if rng.random() < 0.5:   # keys that differ only above the bucket: same bucket for every table size used here
         k0 = rng.choice(keys)
         keys += [k0 ^ (rng.getrandbits(20) << 20) for _ in range(4)]
@@ -320,11 +322,27 @@ def make_jobs(ctx, positions, variant):
             trs = S.track(a, variant)
             cl = [classes_of(t, variant) for t in trs]
             if want == "clean" and (cl[0] or cl[1]):
-                k = k + 2          # moves both probes away from generation 0
+                k = k + 2 if k + 2 <= 40 else max(0, k - 13)      # moves both probes away from generation 0
                 continue
             plan.append({"base": base, "prior": prior, "pp": S.pos_cmd(pp), "pgo": pgo, "a": a, "b": b, "tr": trs,
                          "classes": cl, "flavour": flavour, "k": k})
             return
+    def add_tb():
+        """a prior session that leaves an on-demand tablebase resident (go infinite on a KQK root),
+        probe on another KQK position: a depth-limited search never generates a tablebase itself,
+        so any tablebase knowledge in its output comes from before Clear Hash"""
+        base = {"Hash": rng.choice(["8", "16"])}
+        pp = ("8/8/8/3k4/8/8/4Q3/4K3 %s - - 0 1" % rng.choice("wb"), "")
+        prior = S.gen_prior(rng, positions, pp, rng.randint(0, 3), base, "plain", budget)
+        prior.append({"k": "go", "pos": S.TB_POSITIONS[0], "go": "infinite", "mode": "stop", "wait": 500})
+        prior += S.gen_prior(rng, positions, pp, rng.randint(0, 2), base, "plain", {"depth": 3, "nodes": 500, "ms": 10})
+        # limited searches only after the tablebase: unlimited ones on other roots would drop it after 5
+        prior = [st for st in prior if st["k"] != "go" or st["pos"] == S.TB_POSITIONS[0] or "depth" in st["go"] or "nodes" in st["go"]
+                 or prior.index(st) < len(prior) - 3]
+        a, b = S.assemble(base, prior, S.pos_cmd(pp), "depth 6")
+        trs = S.track(a, variant)
+        plan.append({"base": base, "prior": prior, "pp": S.pos_cmd(pp), "pgo": "depth 6", "a": a, "b": b, "tr": trs,
+                     "classes": [classes_of(t, variant) for t in trs], "flavour": "tablebase", "k": len(prior)})
     H = lambda: {"Hash": rng.choice(["1", "1", "2", "4", "16"])}
     if quick:
         for k in (15, 31, 15):                      # F5 class: probe runs with generation 0
@@ -346,6 +364,7 @@ def make_jobs(ctx, positions, variant):
                 base["UseNullMove"] = "false"
             add(rng.randint(1, 40), "options", base)
         add(rng.randint(2, 6), "options0", {"Hash": "16"}, want="clean")
+        add_tb()
     else:
         n = 500
         for i in range(n):
@@ -365,6 +384,8 @@ def make_jobs(ctx, positions, variant):
                 base["Strength"] = rng.choice(["300", "800"])
                 fl = "plain"
             add(max(k, 0), fl, base, want=("clean" if i % 3 == 0 and "Contempt" not in base else None))
+            if i % 25 == 0:
+                add_tb()
     return plan
 
 
